@@ -184,6 +184,7 @@ static std::string run_case(const std::string& kind, unsigned seed, long rounds,
     long cmds = 0, skips = 0;
     g_steps.store(0, std::memory_order_relaxed);
     if (!f->boot()) return "boot-failed";
+    (void) f->is_running(); (void) f->step_number(); cmds += 2;     // queries before the first run()
     f->run(); ++cmds;
     let_it_step(3);
     for (long k = 0; k < rounds; ++k) {
@@ -195,13 +196,22 @@ static std::string run_case(const std::string& kind, unsigned seed, long rounds,
             try { if (f->skip(names[n], !on)) ++skips; } catch (const std::exception&) { }
             ++cmds; let_it_step(2); pause_us(r, pause);
         }
+        // every query and lifecycle command at least once per round, in every phase of the recursion
+        (void) f->is_running(); pause_us(r, pause); (void) f->step_number(); cmds += 2;
+        f->reset(); ++cmds; let_it_step(2);
+        f->reboot(); ++cmds; (void) f->is_running(); pause_us(r, pause); (void) f->step_number(); cmds += 2;
+        f->run(); ++cmds; let_it_step(2);
         // queries and lifecycle commands in a seeded order
         for (int j = 0; j < 8; ++j) {
             switch (r() % 8) {
                 case 0: (void) f->step_number(); break;
                 case 1: (void) f->is_running(); break;
                 case 2: f->reset(); let_it_step(2); break;
-                case 3: f->reboot(); pause_us(r, pause); f->run(); ++cmds; let_it_step(2); break;
+                case 3:
+                    // queries while the filter is on its way to / parked in the condition wait
+                    f->reboot(); (void) f->is_running(); (void) f->step_number(); pause_us(r, pause);
+                    (void) f->is_running(); (void) f->step_number(); cmds += 4;
+                    f->run(); ++cmds; let_it_step(2); break;
                 case 4: f->run(); break;
                 case 5: try { f->skip(names[r() % 5], (r() & 1u) != 0); } catch (const std::exception&) { } break;
                 case 6: (void) f->step_number(); (void) f->is_running(); break;
@@ -213,7 +223,9 @@ static std::string run_case(const std::string& kind, unsigned seed, long rounds,
     for (int n = 0; n < 5; ++n) { try { f->skip(names[n], false); } catch (const std::exception&) { } ++cmds; }
     let_it_step(2);
     f->teardown(); ++cmds;
+    (void) f->is_running(); (void) f->step_number(); cmds += 2;     // queries between teardown and join
     f->wait(); ++cmds;
+    (void) f->is_running(); (void) f->step_number();                // after the join: ordered, never a race
     std::ostringstream os;
     os << "ok kind=" << kind << " steps=" << g_steps.load(std::memory_order_relaxed) << " cmds=" << cmds << " skips=" << skips;
     return os.str();
